@@ -1,5 +1,8 @@
 import MlModel.Lemmas.Strategy
 import MlModel.Lemmas.Rebatch
+import MlModel.Model.DequeueCache
+import MlModel.Model.PipeAggShard
+import MlModel.Lemmas.PipeAggInst
 /-!
 # Witnesses for C03
 
@@ -58,5 +61,31 @@ theorem C03_fuse_reorders :
     (aggFeeds [stA.fuse stB] [[[0], [1]], [[2]]]).map (fun af => momentsM.result (momentsM.feed (af.2.map col0))) = [(3, 306, 31220)] ∧
     stA.fusable stB = false := by
   decide +kernel
+
+/-! ### contrast models (tests, `decide`d): what the two round-5 seeded regressions of C03 would do -/
+
+/-- a `DequeueIterator` cache bounded BELOW the cap of one `get_batch` (cache 2, cap 3, backlog of 4): the
+oldest element of the first refill is silently dropped — `C03_cache_bounded_cap` says when, the unbounded
+cache of the code never (`C03_cache_exactly_once`). -/
+theorem C03_cache_bounded_loses_witness :
+    DequeueCache.throughQueue 2 3 none [0, 1, 2, 3] = [1, 2, 3] ∧
+    DequeueCache.throughQueue 0 3 none [0, 1, 2, 3] = [0, 1, 2, 3] := by decide +kernel
+
+/-- `merge_states` that takes the keys to merge from the FIRST state only (instead of the union of the key
+sets, `PipeAgg.mergeStates`) -/
+def mergeFirstKeys (sts : List (PipeAgg.State PipeAgg.Stat)) : List PipeAgg.MetricKey :=
+  match sts with
+  | [] => []
+  | st :: _ => PipeAgg.AList.keys st
+
+/-- on C02's example stream cut into one shard per batch, slice `a = 2` (seen only by the last shard) is in
+the union of the key sets — what `PipeAgg.mergeStates` keeps, `C03_shards_sliced_keys` — and not among the
+first shard's keys -/
+theorem C03_first_shard_keys_witness :
+    ((PipeAgg.mapE (PipeAgg.run PipeAgg.exPipeline) (PipeAgg.exStream.map ([·]))).toOption.map fun sts =>
+      (decide ((⟨["o"], ⟨["a"], [2]⟩⟩ : PipeAgg.MetricKey) ∈
+          PipeAgg.AList.keys (PipeAgg.mergeStates PipeAgg.exPipeline sts)),
+       decide ((⟨["o"], ⟨["a"], [2]⟩⟩ : PipeAgg.MetricKey) ∈ mergeFirstKeys sts))) = some (true, false) := by
+  decide
 
 end MlModel.C03.Witness
